@@ -1,3 +1,341 @@
-//! C11 bounded native checks (not written yet)
+//! C11 bounded: circle / arc / tangent constructions against their defining constraints.
+//! Circle pairs over a grid of centres (integer offsets with integer centre distances 0, 3, 4, 5, 10, 13 and a few
+//! irrational ones) and radii; external points at distance ratios d/r from 1+1e-9 to 1e3 in 6 directions; segments
+//! (long chords, exactly tangent ones, partially inside, outside) and closed polylines against circles; all ordered
+//! triples of the 12 integer points of the radius-5 circle (3 centres); arcs over a grid of centres, radii, start
+//! angles and signed sweeps up to +-2pi. Every returned coordinate must be finite.
 use super::Report;
-pub fn run() -> Option<Report> { None }
+use crate::common::Intersection;
+use crate::geom2::{Arc2, Circle2, Curve2, HasBounds2, Point2, Segment2};
+use std::f64::consts::PI;
+
+const T: f64 = 1e-9;
+fn p(x: f64, y: f64) -> Point2 { Point2::new(x, y) }
+fn d2(a: &Point2, b: &Point2) -> f64 { ((a.x - b.x).powi(2) + (a.y - b.y).powi(2)).sqrt() }
+fn fin(q: &Point2) -> bool { q.x.is_finite() && q.y.is_finite() }
+fn on_circle(q: &Point2, c: &Circle2) -> bool { fin(q) && (d2(q, &c.center) - c.r()).abs() <= T * (1.0 + c.r() + c.center.x.abs() + c.center.y.abs()) }
+fn near(a: &Point2, b: &Point2, scale: f64) -> bool { fin(a) && fin(b) && d2(a, b) <= T * (1.0 + scale) }
+fn cs(c: &Circle2) -> (f64, f64, f64) { (c.x(), c.y(), c.r()) }
+fn ps(v: &[Point2]) -> Vec<(f64, f64)> { v.iter().map(|q| (q.x, q.y)).collect() }
+
+// ---------------------------------------------------------------- circle x circle
+fn check_circle_pairs(r: &mut Report) {
+    let centres0 = [(0.0, 0.0), (1.5, -2.0), (-100.0, 40.0)];
+    let offsets = [(0.0, 0.0), (3.0, 0.0), (0.0, -4.0), (3.0, 4.0), (-5.0, 12.0), (6.0, -8.0), (1.0, 1.0), (0.5, 0.0), (-2.0, 0.25), (0.0, 1.0), (8.0, 0.0), (2.0, 0.0)];
+    let radii = [0.5, 1.0, 2.0, 3.0, 4.0, 5.0, 8.0, 9.0];
+    for c0 in centres0 { for off in offsets { for r0 in radii { for r1 in radii {
+        let a = Circle2::new(c0.0, c0.1, r0);
+        let b = Circle2::new(c0.0 + off.0, c0.1 + off.1, r1);
+        let d = (off.0 * off.0 + off.1 * off.1 as f64).sqrt(); // exact for the pythagorean / axis offsets
+        let (rs, rd) = (r0 + r1, (r0 - r1).abs());
+        // expected count; configurations within 1e-6 of (but not exactly at) tangency are not part of the input space
+        let expected = if d == 0.0 { 0 } else if d == rs || d == rd { 1 } else if (d - rs).abs() < 1e-6 || (d - rd).abs() < 1e-6 { continue } else if d > rs || d < rd { 0 } else { 2 };
+        r.case();
+        let got = a.intersections_with(&b);
+        let desc = || format!("circle {:?} x circle {:?} (centre distance {:?}, r0+r1 {:?}, |r0-r1| {:?}) -> {:?}", cs(&a), cs(&b), d, rs, rd, ps(&got));
+        r.check(got.iter().all(fin), "circle-circle intersection: no non-finite coordinate", desc);
+        r.check(got.len() == expected, "circle-circle intersection: count matches the configuration (0 separate / nested / concentric, 1 tangent, 2 crossing)", || format!("{} expected {}", desc(), expected));
+        r.check(got.iter().all(|q| on_circle(q, &a) && on_circle(q, &b)), "circle-circle intersection: every returned point lies on both circles", desc);
+        if got.len() == 2 { r.check(d2(&got[0], &got[1]) > 1e-7, "circle-circle intersection: two crossing points are distinct", desc); }
+        let iv = a.intersection_interval(b);
+        r.check(iv.is_some() == (expected > 0), "intersection_interval is produced exactly when the circles meet", desc);
+    } } } }
+}
+
+// ---------------------------------------------------------------- tangents from a point
+fn check_tangent_points(r: &mut Report) {
+    let circles = [(0.0, 0.0, 1.0), (3.0, -2.0, 5.0), (-40.0, 25.0, 0.125), (7.0, 7.0, 1000.0)];
+    let dirs = [(1.0, 0.0), (0.0, 1.0), (0.6, 0.8), (-5.0 / 13.0, 12.0 / 13.0), (-0.6, -0.8), (0.0, -1.0)];
+    let ratios = [1.0 + 1e-9, 1.0 + 1e-6, 1.001, 1.1, std::f64::consts::SQRT_2, 2.0, 3.0, 10.0, 1000.0];
+    for (cx, cy, rad) in circles { let c = Circle2::new(cx, cy, rad); for (ux, uy) in dirs {
+        for ratio in ratios {
+            let q = p(cx + ux * rad * ratio, cy + uy * rad * ratio);
+            if d2(&q, &c.center) <= rad { continue; }
+            r.case();
+            let got = c.tangent_points_to(&q);
+            let desc = || format!("circle {:?}.tangent_points_to({:?}) (d/r = {:?}) -> {:?}", cs(&c), (q.x, q.y), d2(&q, &c.center) / rad, got.map(|(a, b)| ((a.x, a.y), (b.x, b.y))));
+            match got {
+                None => r.check(false, "tangent points exist for a point outside the circle", desc),
+                Some((t0, t1)) => {
+                    r.check(fin(&t0) && fin(&t1), "tangent points: no non-finite coordinate", desc);
+                    r.check(on_circle(&t0, &c) && on_circle(&t1, &c), "tangent points lie on the circle", desc);
+                    let perp = |t: &Point2| { let dot = (t.x - cx) * (q.x - t.x) + (t.y - cy) * (q.y - t.y); dot.abs() <= 1e-7 * rad * d2(&q, t) };
+                    r.check(perp(&t0) && perp(&t1), "tangent line through the external point is perpendicular to the radius", desc);
+                    // documented order: first point left (negative normal side) of the line point -> centre, second right
+                    let (lx, ly) = (cx - q.x, cy - q.y);
+                    let side = |t: &Point2| (t.x - q.x) * ly - (t.y - q.y) * lx; // > 0 on the right
+                    r.check(side(&t0) < 0.0 && side(&t1) > 0.0, "tangent points in the documented left / right order", desc);
+                }
+            }
+        }
+        // on the perimeter and just inside: no tangent points
+        for ratio in [1.0, 1.0 - 1e-9, 0.5, 0.0] {
+            let q = p(cx + ux * rad * ratio, cy + uy * rad * ratio);
+            if d2(&q, &c.center) > rad { continue; }
+            r.case();
+            let got = c.tangent_points_to(&q);
+            r.check(got.is_none(), "no tangent points for a point on or inside the perimeter", || format!("circle {:?}.tangent_points_to({:?}) -> {:?}", cs(&c), (q.x, q.y), got.map(|(a, b)| ((a.x, a.y), (b.x, b.y)))));
+        }
+        // projection to the perimeter
+        for ratio in [0.25, 1.0, 3.0] {
+            let q = p(cx + ux * rad * ratio, cy + uy * rad * ratio);
+            r.case();
+            let got = c.project_point_to_perimeter(&q);
+            let e = p(cx + ux * rad, cy + uy * rad);
+            r.check(match got { Some(g) => near(&g, &e, rad + cx.abs() + cy.abs()), None => false }, "projection to the perimeter lies on the circle along the centre-to-point direction", || format!("circle {:?}.project_point_to_perimeter({:?}) -> {:?}", cs(&c), (q.x, q.y), got.map(|g| (g.x, g.y))));
+            r.check((c.distance_to(&q) - rad * (ratio - 1.0)).abs() <= T * (1.0 + rad * ratio.max(1.0) + cx.abs() + cy.abs()), "distance_to is the signed distance to the perimeter", || format!("circle {:?}.distance_to({:?}) -> {:?}", cs(&c), (q.x, q.y), c.distance_to(&q)));
+        }
+    }
+        r.check(c.project_point_to_perimeter(&c.center).is_none(), "projection of the centre to the perimeter is undefined (None)", || format!("circle {:?}", cs(&c)));
+    }
+}
+
+// ---------------------------------------------------------------- outer tangents
+fn check_outer_tangents(r: &mut Report) {
+    let centres0 = [(0.0, 0.0), (1.5, -2.0)];
+    let offsets = [(0.0, 0.0), (3.0, 0.0), (0.0, -4.0), (3.0, 4.0), (-5.0, 12.0), (6.0, -8.0), (1.0, 1.0), (0.5, 0.0), (-2.0, 0.25), (2.0, 2.0)];
+    let radii = [0.5, 1.0, 2.0, 3.0, 5.0, 8.0];
+    for c0 in centres0 { for off in offsets { for r0 in radii { for r1 in radii {
+        let a = Circle2::new(c0.0, c0.1, r0);
+        let b = Circle2::new(c0.0 + off.0, c0.1 + off.1, r1);
+        let d = (off.0 * off.0 + off.1 * off.1 as f64).sqrt();
+        let rd = (r0 - r1).abs();
+        r.case();
+        let got = a.outer_tangents_to(&b);
+        let show = |s: &Segment2| ((s.a.x, s.a.y), (s.b.x, s.b.y));
+        let desc = || format!("circle {:?}.outer_tangents_to(circle {:?}) (centre distance {:?}, |r0-r1| {:?}) -> {:?}", cs(&a), cs(&b), d, rd, got.as_ref().map(|(s0, s1)| (show(s0), show(s1))));
+        if d == 0.0 { r.check(got.is_none(), "no outer tangents for concentric circles", desc); continue; }
+        if d <= rd + 1e-6 {
+            // one circle inside the other (or internally tangent): nothing to touch; whatever is returned must be finite
+            if let Some((s0, s1)) = got.as_ref() { r.check(fin(&s0.a) && fin(&s0.b) && fin(&s1.a) && fin(&s1.b), "outer tangents: no non-finite coordinate", desc); }
+            if d < rd - 1e-6 { r.check(got.is_none(), "no outer tangents when one circle lies strictly inside the other", desc); }
+            continue;
+        }
+        match got.as_ref() {
+            None => r.check(false, "outer tangents exist for circles of which neither contains the other", desc),
+            Some((s0, s1)) => {
+                r.check(fin(&s0.a) && fin(&s0.b) && fin(&s1.a) && fin(&s1.b), "outer tangents: no non-finite coordinate", desc);
+                let scale = 1.0 + r0 + r1 + d;
+                let touches = |s: &Segment2| {
+                    let (tx, ty) = (s.b.x - s.a.x, s.b.y - s.a.y);
+                    let l = (tx * tx + ty * ty).sqrt();
+                    on_circle(&s.a, &a) && on_circle(&s.b, &b)
+                        && ((s.a.x - a.x()) * tx + (s.a.y - a.y()) * ty).abs() <= 1e-8 * scale * l
+                        && ((s.b.x - b.x()) * tx + (s.b.y - b.y()) * ty).abs() <= 1e-8 * scale * l
+                };
+                r.check(touches(s0) && touches(s1), "outer tangent segments start on this circle, end on the other and are perpendicular to both radii", desc);
+                // outer (not crossing) tangents: both ends of a segment on the same side of the centre line
+                let side = |q: &Point2| (q.x - a.x()) * off.1 - (q.y - a.y()) * off.0; // > 0 on the right of the line a -> b
+                r.check(side(&s0.a) * side(&s0.b) > 0.0 && side(&s1.a) * side(&s1.b) > 0.0 && side(&s0.a) * side(&s1.a) < 0.0, "outer tangent segments lie on opposite sides of the centre line and do not cross it", desc);
+                if rd < 1e-10 {
+                    r.check(side(&s0.a) < 0.0 && side(&s1.a) > 0.0, "outer tangents of EQUAL-radius circles in the documented order (first left / negative normal side, second right)", desc);
+                } else {
+                    r.check(side(&s0.a) < 0.0 && side(&s1.a) > 0.0, "outer tangents in the documented order (first left / negative normal side, second right)", desc);
+                }
+            }
+        }
+    } } } }
+}
+
+// ---------------------------------------------------------------- circle x segment, curve x circle
+/// parameters in [0,1] at which the segment a-b meets the circle, None when an end point is within 1e-6 of the perimeter
+/// or the line is within 1e-6 of tangency without being exactly tangent
+fn seg_circle_count(a: &Point2, b: &Point2, c: &Circle2) -> Option<usize> {
+    let (dx, dy) = (b.x - a.x, b.y - a.y);
+    let (fx, fy) = (a.x - c.x(), a.y - c.y());
+    let l2 = dx * dx + dy * dy;
+    let tc = -(fx * dx + fy * dy) / l2;
+    let (qx, qy) = (fx + tc * dx, fy + tc * dy);
+    let dist = (qx * qx + qy * qy).sqrt();
+    for e in [a, b] { if (d2(e, &c.center) - c.r()).abs() < 1e-6 { return None; } }
+    if dist == c.r() { return Some(if tc >= 0.0 && tc <= 1.0 { 1 } else { 0 }); }
+    if (dist - c.r()).abs() < 1e-6 { return None; }
+    if dist > c.r() { return Some(0); }
+    let th = ((c.r() * c.r() - dist * dist) / l2).sqrt();
+    Some([tc - th, tc + th].iter().filter(|t| **t >= 0.0 && **t <= 1.0).count())
+}
+fn on_segment(q: &Point2, a: &Point2, b: &Point2) -> bool {
+    let (ex, ey) = (b.x - a.x, b.y - a.y);
+    let l2 = ex * ex + ey * ey;
+    let s = (((q.x - a.x) * ex + (q.y - a.y) * ey) / l2).clamp(0.0, 1.0);
+    d2(q, &p(a.x + s * ex, a.y + s * ey)) <= T * (1.0 + l2.sqrt() + a.x.abs() + a.y.abs())
+}
+fn check_lines(r: &mut Report) {
+    let circles = [(0.0, 0.0, 5.0), (3.0, -2.0, 5.0), (-10.0, 20.0, 2.5), (0.5, 0.25, 1.0)];
+    for (cx, cy, rad) in circles {
+        let c = Circle2::new(cx, cy, rad);
+        let k = rad / 5.0;
+        let mut segs: Vec<(Point2, Point2)> = vec![];
+        // exactly tangent lines: axis-parallel at +-r, oblique at the 3-4-5 points
+        segs.push((p(cx - 10.0, cy + rad), p(cx + 10.0, cy + rad)));
+        segs.push((p(cx - rad, cy - 7.0), p(cx - rad, cy + 9.0)));
+        segs.push((p(cx + 7.0 * k, cy + 1.0 * k), p(cx - 1.0 * k, cy + 7.0 * k)));       // touches at (3k, 4k)
+        segs.push((p(cx - 4.0 * k + 6.0 * k, cy - 3.0 * k - 8.0 * k), p(cx - 4.0 * k - 6.0 * k, cy - 3.0 * k + 8.0 * k))); // touches at (-4k, -3k)
+        // tangent line, but the segment stops short of the touching point
+        segs.push((p(cx + 1.0, cy + rad), p(cx + 10.0, cy + rad)));
+        // chords, partially inside, inside, outside; offsets from the centre over a grid
+        for off in [0.0, 0.25, 0.5, 0.75, 0.96875, 1.03125, 2.0] {
+            segs.push((p(cx - 3.0 * rad, cy + off * rad), p(cx + 3.0 * rad, cy + off * rad)));
+            segs.push((p(cx - off * rad, cy - 2.0 * rad), p(cx - off * rad, cy + 4.0 * rad)));
+            segs.push((p(cx + off * rad, cy), p(cx + off * rad + 3.0 * rad, cy + 1.5 * rad)));
+            segs.push((p(cx - 2.0 * rad, cy - 2.0 * rad - off * rad), p(cx + 2.0 * rad, cy + 2.0 * rad - off * rad)));
+            segs.push((p(cx + 0.25 * rad, cy + 0.125 * rad), p(cx + 0.25 * rad + off * rad, cy - 0.5 * rad)));
+        }
+        for (a, b) in segs.iter() {
+            for (a, b) in [(a, b), (b, a)] {
+                let expected = match seg_circle_count(a, b, &c) { Some(e) => e, None => continue };
+                let s = match Segment2::try_new(*a, *b) { Ok(s) => s, Err(_) => continue };
+                r.case();
+                let got = c.intersection(&s);
+                let desc = || format!("circle {:?} x segment {:?}-{:?} -> {:?} (expected {} points)", cs(&c), (a.x, a.y), (b.x, b.y), ps(&got), expected);
+                r.check(got.iter().all(fin), "circle-segment intersection: no non-finite coordinate", desc);
+                r.check(got.len() == expected, "circle-segment intersection: count matches the configuration (0 apart, 1 tangent or one end inside, 2 crossing)", desc);
+                r.check(got.iter().all(|q| on_circle(q, &c) && on_segment(q, a, b)), "circle-segment intersection: every returned point lies on the circle and on the segment", desc);
+            }
+        }
+    }
+    // a line within the documented tolerance (1e-10) of tangency, just outside: the single tangent point
+    for (cx, cy, rad) in [(0.0, 0.0, 5.0), (3.0, -2.0, 5.0)] {
+        let c = Circle2::new(cx, cy, rad);
+        let e = 1.0 / 1099511627776.0; // 2^-40
+        for (a, b) in [(p(cx - 10.0, cy + rad + e), p(cx + 10.0, cy + rad + e)), (p(cx - rad - e, cy + 8.0), p(cx - rad - e, cy - 8.0))] {
+            let s = Segment2::try_new(a, b).unwrap();
+            r.case();
+            let got = c.intersection(&s);
+            r.check(got.len() == 1 && on_circle(&got[0], &c) && on_segment(&got[0], &a, &b), "circle-segment intersection: a line within 1e-10 of tangency yields the single tangent point", || format!("circle {:?} x segment {:?}-{:?} (distance r + 2^-40) -> {:?}", cs(&c), (a.x, a.y), (b.x, b.y), ps(&got)));
+        }
+    }
+    // closed and open polylines x circles
+    let curves: Vec<Vec<Point2>> = vec![
+        vec![p(0.0, 0.0), p(8.0, 0.0), p(8.0, 6.0), p(0.0, 6.0), p(0.0, 0.0)],
+        vec![p(-6.0, -1.0), p(-3.0, 5.0), p(0.0, -1.0), p(3.0, 5.0), p(6.0, -1.0), p(9.0, 5.0)],
+        vec![p(-2.0, 0.0), p(0.0, 4.0), p(2.0, 0.0), p(0.0, -4.0), p(-2.0, 0.0)],
+    ];
+    for pts in curves.iter() {
+        let curve = match Curve2::from_points(pts, 1e-6, false) { Ok(c) => c, Err(_) => continue };
+        for (cx, cy) in [(0.0, 0.0), (4.0, 3.0), (1.0, 2.5), (-3.0, 1.0), (8.0, 6.0)] { for rad in [0.75, 2.25, 3.5, 5.5, 20.0] {
+            let c = Circle2::new(cx, cy, rad);
+            let mut expected = 0; let mut skip = false;
+            for i in 0..pts.len() - 1 { match seg_circle_count(&pts[i], &pts[i + 1], &c) { Some(e) => expected += e, None => skip = true } }
+            if skip { continue; }
+            r.case();
+            let got = curve.intersection(&c);
+            let desc = || format!("curve {:?} x circle {:?} -> {:?} (expected {} points)", ps(pts), cs(&c), ps(&got), expected);
+            r.check(got.iter().all(fin), "curve-circle intersection: no non-finite coordinate", desc);
+            r.check(got.len() == expected, "curve-circle intersection: count equals the sum over the edges", desc);
+            r.check(got.iter().all(|q| on_circle(q, &c) && (0..pts.len() - 1).any(|i| on_segment(q, &pts[i], &pts[i + 1]))), "curve-circle intersection: every returned point lies on the circle and on the curve", desc);
+        } }
+    }
+}
+
+// ---------------------------------------------------------------- arcs
+fn circle_pt(cx: f64, cy: f64, rad: f64, a: f64) -> Point2 { p(cx + rad * a.cos(), cy + rad * a.sin()) }
+
+fn check_three_point_arcs(r: &mut Report) {
+    let ring = [(5.0, 0.0), (4.0, 3.0), (3.0, 4.0), (0.0, 5.0), (-3.0, 4.0), (-4.0, 3.0), (-5.0, 0.0), (-4.0, -3.0), (-3.0, -4.0), (0.0, -5.0), (3.0, -4.0), (4.0, -3.0)];
+    for (cx, cy) in [(0.0, 0.0), (2.0, -7.0), (-30.0, 11.0)] {
+        for i in 0..12 { for j in 0..12 { for k in 0..12 {
+            if i == j || j == k || i == k { continue; }
+            let q = |m: usize| p(cx + ring[m].0, cy + ring[m].1);
+            let (p0, p1, p2) = (q(i), q(j), q(k));
+            r.case();
+            let arc = Arc2::three_points(p0, p1, p2);
+            let desc = || format!("Arc2::three_points({:?}, {:?}, {:?}) -> centre ({:?}, {:?}) r {:?} angle0 {:?} sweep {:?}", (p0.x, p0.y), (p1.x, p1.y), (p2.x, p2.y), arc.center().x, arc.center().y, arc.radius(), arc.angle0, arc.angle);
+            let scale = 5.0 + cx.abs() + cy.abs();
+            r.check(arc.angle.is_finite() && arc.angle0.is_finite() && fin(&arc.center()) && arc.radius().is_finite(), "three-point arc: no non-finite value", desc);
+            r.check(near(&arc.center(), &p(cx, cy), scale) && (arc.radius() - 5.0).abs() <= T * scale, "three-point arc lies on the circle through the three points", desc);
+            r.check(near(&arc.start(), &p0, scale), "three-point arc starts at the first point", desc);
+            r.check(near(&arc.end(), &p2, scale), "three-point arc ends at the third point", desc);
+            // sweep sign: counter-clockwise (positive) exactly when p0 -> p1 -> p2 turns left
+            let turn = (p1.x - p0.x) * (p2.y - p1.y) - (p1.y - p0.y) * (p2.x - p1.x);
+            r.check((arc.angle > 0.0) == (turn > 0.0) && arc.angle.abs() <= 2.0 * PI + 1e-12 && arc.angle != 0.0, "three-point arc sweeps counter-clockwise (positive) exactly when the points turn left, by at most a full turn", desc);
+            // passes through the second point: its angle, measured from the start in the sweep direction, is inside the sweep
+            let a1 = (p1.y - cy).atan2(p1.x - cx);
+            let mut da = if arc.angle > 0.0 { a1 - arc.angle0 } else { arc.angle0 - a1 };
+            while da < 0.0 { da += 2.0 * PI; }
+            while da >= 2.0 * PI { da -= 2.0 * PI; }
+            let f = da / arc.angle.abs();
+            r.check(f > 0.0 && f < 1.0 && near(&arc.point_at_fraction(f), &p1, scale), "three-point arc passes through the second point between its ends", || format!("{} fraction {:?}", desc(), f));
+            check_arc_box(r, &arc, &desc());
+        } } }
+    }
+}
+
+/// bounding box: contains the arc and touches it on all four sides (candidates: both ends, every multiple of pi/2
+/// inside the sweep, 720 samples)
+fn check_arc_box(r: &mut Report, arc: &Arc2, what: &str) {
+    let (cx, cy, rad) = (arc.center().x, arc.center().y, arc.radius());
+    let (a0, sw) = (arc.angle0, arc.angle);
+    let (lo, hi) = if sw >= 0.0 { (a0, a0 + sw) } else { (a0 + sw, a0) };
+    let mut cand: Vec<Point2> = vec![circle_pt(cx, cy, rad, a0), circle_pt(cx, cy, rad, a0 + sw)];
+    let k0 = (lo / (PI / 2.0)).ceil() as i64;
+    let k1 = (hi / (PI / 2.0)).floor() as i64;
+    for k in k0..=k1 { let m = ((k % 4) + 4) % 4; let (ux, uy) = [(1.0, 0.0), (0.0, 1.0), (-1.0, 0.0), (0.0, -1.0)][m as usize]; cand.push(p(cx + rad * ux, cy + rad * uy)); }
+    for i in 0..=720 { cand.push(circle_pt(cx, cy, rad, a0 + sw * i as f64 / 720.0)); }
+    let (mut x0, mut x1, mut y0, mut y1) = (f64::MAX, f64::MIN, f64::MAX, f64::MIN);
+    for q in cand.iter() { x0 = x0.min(q.x); x1 = x1.max(q.x); y0 = y0.min(q.y); y1 = y1.max(q.y); }
+    let bb = arc.aabb();
+    let tol = 1e-9 * (1.0 + rad + cx.abs() + cy.abs());
+    let desc = || format!("{}: cached box [{:?}, {:?}] x [{:?}, {:?}], extent of the arc [{:?}, {:?}] x [{:?}, {:?}]", what, bb.mins.x, bb.maxs.x, bb.mins.y, bb.maxs.y, x0, x1, y0, y1);
+    r.check(bb.mins.x.is_finite() && bb.mins.y.is_finite() && bb.maxs.x.is_finite() && bb.maxs.y.is_finite(), "arc bounding box: no non-finite coordinate", desc);
+    r.check(bb.mins.x <= x0 + tol && bb.mins.y <= y0 + tol && bb.maxs.x >= x1 - tol && bb.maxs.y >= y1 - tol, "cached bounding box of an arc contains it", desc);
+    r.check(bb.mins.x >= x0 - tol && bb.mins.y >= y0 - tol && bb.maxs.x <= x1 + tol && bb.maxs.y <= y1 + tol, "cached bounding box of an arc touches it on all four sides", desc);
+}
+
+fn check_arcs(r: &mut Report) {
+    let centres = [(0.0, 0.0), (3.0, -2.0), (-50.0, 75.0)];
+    let radii = [0.25, 1.0, 7.5];
+    let mut starts: Vec<f64> = (-6..=6).map(|k| k as f64 * PI / 6.0).collect();
+    starts.extend_from_slice(&[0.3, -2.9, 1.5707, 3.1, -0.001]);
+    let mut sweeps: Vec<f64> = (-16..=16).filter(|k| *k != 0).map(|k| k as f64 * PI / 8.0).collect();
+    sweeps.extend_from_slice(&[0.3, -1.7, 5.9, -6.2, 0.001, -0.001, 4.0, -3.3]);
+    for (cx, cy) in centres { for rad in radii { for &a0 in starts.iter() { for &sw in sweeps.iter() {
+        r.case();
+        let arc = Arc2::circle_angles(p(cx, cy), rad, a0, sw);
+        let what = format!("Arc2::circle_angles(({:?}, {:?}), r {:?}, angle0 {:?}, sweep {:?})", cx, cy, rad, a0, sw);
+        let scale = rad + cx.abs() + cy.abs();
+        let len = arc.length();
+        r.check((len - rad * sw.abs()).abs() <= T * (1.0 + len), "arc length == radius * |sweep|", || format!("{} length {:?}", what, len));
+        r.check(near(&arc.start(), &circle_pt(cx, cy, rad, a0), scale) && near(&arc.end(), &circle_pt(cx, cy, rad, a0 + sw), scale), "arc starts at angle0 and ends at angle0 + sweep", || format!("{} start {:?} end {:?}", what, (arc.start().x, arc.start().y), (arc.end().x, arc.end().y)));
+        let mut ok = true; let mut bad = String::new();
+        for f in [0.0, 0.125, 0.5, 0.8125, 1.0] {
+            let l = len * f;
+            // travelling the length l from the start in the sweep direction (clockwise for a negative sweep)
+            let e = circle_pt(cx, cy, rad, a0 + sw.signum() * l / rad);
+            let by_len = arc.point_at_length(l);
+            let by_frac = arc.point_at_fraction(f);
+            let by_ang = arc.point_at_angle(sw * f);
+            if !(near(&by_len, &e, scale) && near(&by_frac, &e, scale) && near(&by_ang, &e, scale)) { ok = false; bad = format!("fraction {:?}: point_at_length {:?}, point_at_fraction {:?}, point_at_angle {:?}, expected {:?}", f, (by_len.x, by_len.y), (by_frac.x, by_frac.y), (by_ang.x, by_ang.y), (e.x, e.y)); }
+        }
+        r.check(ok, "point_at_length, point_at_fraction and point_at_angle agree with travelling along the arc from its start in the sweep direction", || format!("{} {}", what, bad));
+        check_arc_box(r, &arc, &what);
+        // the other constructors give the same arc
+        let c = Circle2::new(cx, cy, rad);
+        let a2 = c.to_partial_arc(a0, sw);
+        let a3 = Arc2::circle_point_angle(p(cx, cy), rad, circle_pt(cx, cy, rad, a0), sw);
+        r.check(near(&a2.start(), &arc.start(), scale) && near(&a2.end(), &arc.end(), scale) && near(&a3.start(), &arc.start(), scale) && near(&a3.end(), &arc.end(), scale) && a3.angle == sw && a2.angle == sw, "to_partial_arc and circle_point_angle build the same arc as circle_angles", || what.clone());
+        check_arc_box(r, &a3, &format!("circle_point_angle form of {}", what));
+    } } } }
+    // circles: box == [c - r, c + r]; full arc of a circle
+    for (cx, cy) in centres { for rad in radii {
+        r.case();
+        let c = Circle2::new(cx, cy, rad);
+        let bb = c.aabb();
+        r.check(bb.mins.x == cx - rad && bb.maxs.x == cx + rad && bb.mins.y == cy - rad && bb.maxs.y == cy + rad, "cached bounding box of a circle contains it and touches it on all four sides", || format!("circle {:?}: box [{:?}, {:?}] x [{:?}, {:?}]", cs(&c), bb.mins.x, bb.maxs.x, bb.mins.y, bb.maxs.y));
+        let full = c.to_arc();
+        r.check((full.length() - 2.0 * PI * rad).abs() <= T * (1.0 + rad) && near(&full.start(), &full.end(), rad + cx.abs() + cy.abs()), "full arc of a circle has length 2 pi r and closes", || format!("circle {:?}", cs(&c)));
+        check_arc_box(r, &full, &format!("to_arc of circle {:?}", cs(&c)));
+        for k in 0..16 { let a = k as f64 * PI / 8.0 + 0.1; r.check(on_circle(&c.point_at_angle(a), &c), "point_at_angle lies on the circle", || format!("circle {:?} angle {:?}", cs(&c), a)); }
+    } }
+}
+
+pub fn run() -> Option<Report> {
+    let mut r = Report::new("circle pairs: 3 centres x 12 offsets (centre distances 0, 0.5, 1, 2, 3, 4, 5, 8, 10, 13, sqrt 2, ...) x 8 x 8 radii (separate, nested, internally / externally tangent, equal radii, concentric; within 1e-6 of tangency excluded unless exact); tangent points: 4 circles x 6 directions x d/r in {1+1e-9, 1+1e-6, 1.001, 1.1, sqrt 2, 2, 3, 10, 1e3} and points on / inside the perimeter; outer tangents: 2 centres x 10 offsets x 6 x 6 radii; segments: 4 circles x 40 segments (exactly tangent, chords, partial, inside, outside) in both senses, 3 polylines x 25 circles; three-point arcs: all ordered triples of the 12 integer points of the radius-5 circle x 3 centres; arcs: 3 centres x 3 radii x 18 start angles x 40 signed sweeps in [-2pi, 2pi] (box checked against both ends, the axis extremes inside the sweep and 720 samples)");
+    check_circle_pairs(&mut r);
+    check_tangent_points(&mut r);
+    check_outer_tangents(&mut r);
+    check_lines(&mut r);
+    check_three_point_arcs(&mut r);
+    check_arcs(&mut r);
+    Some(r)
+}
